@@ -291,3 +291,213 @@ Qed.
 Print Assumptions C13_fs_comp_sched_indep.
 Print Assumptions C13_fs_comp_sources.
 Print Assumptions C13_fs_comp_example.
+
+(* ---------- Tie A, decision logic (tools/src2v2.py -> gen/Src2.v): writers: accepted sizes, the tag goes through write_all, the position counts accepted bytes ---------- *)
+From MLA Require SrcTie2b SrcTie2Events.
+Check SrcTie2b.ew_write_src.
+Theorem C13_tie_ew_write_src : ltac:(let t := type of SrcTie2b.ew_write_src in exact t).
+Proof. exact SrcTie2b.ew_write_src. Qed.
+Print Assumptions C13_tie_ew_write_src.
+Check SrcTie2b.ew_write_size_bounds.
+Theorem C13_tie_ew_write_size_bounds : ltac:(let t := type of SrcTie2b.ew_write_size_bounds in exact t).
+Proof. exact SrcTie2b.ew_write_size_bounds. Qed.
+Print Assumptions C13_tie_ew_write_size_bounds.
+Check SrcTie2b.ew_renew_src.
+Theorem C13_tie_ew_renew_src : ltac:(let t := type of SrcTie2b.ew_renew_src in exact t).
+Proof. exact SrcTie2b.ew_renew_src. Qed.
+Print Assumptions C13_tie_ew_renew_src.
+Check SrcTie2b.pos_write_src.
+Theorem C13_tie_pos_write_src : ltac:(let t := type of SrcTie2b.pos_write_src in exact t).
+Proof. exact SrcTie2b.pos_write_src. Qed.
+Print Assumptions C13_tie_pos_write_src.
+Check SrcTie2b.hash_read_src.
+Theorem C13_tie_hash_read_src : ltac:(let t := type of SrcTie2b.hash_read_src in exact t).
+Proof. exact SrcTie2b.hash_read_src. Qed.
+Print Assumptions C13_tie_hash_read_src.
+Check SrcTie2b.stream_write_src.
+Theorem C13_tie_stream_write_src : ltac:(let t := type of @SrcTie2b.stream_write_src in exact t).
+Proof. exact @SrcTie2b.stream_write_src. Qed.
+Print Assumptions C13_tie_stream_write_src.
+Check SrcTie2Events.enc_write_tag_write_all.
+Theorem C13_tie_enc_write_tag_write_all : ltac:(let t := type of SrcTie2Events.enc_write_tag_write_all in exact t).
+Proof. exact SrcTie2Events.enc_write_tag_write_all. Qed.
+Print Assumptions C13_tie_enc_write_tag_write_all.
+Check SrcTie2Events.EV_enc_write_shape.
+Theorem C13_tie_EV_enc_write_shape : ltac:(let t := type of SrcTie2Events.EV_enc_write_shape in exact t).
+Proof. exact SrcTie2Events.EV_enc_write_shape. Qed.
+Print Assumptions C13_tie_EV_enc_write_shape.
+Check SrcTie2Events.EV_wwc_write_shape.
+Theorem C13_tie_EV_wwc_write_shape : ltac:(let t := type of SrcTie2Events.EV_wwc_write_shape in exact t).
+Proof. exact SrcTie2Events.EV_wwc_write_shape. Qed.
+Print Assumptions C13_tie_EV_wwc_write_shape.
+(* ---------- work package wrows: the Tie B rows of job c13-sinkrows run Sink.write_all / Sink.pos_write
+   over Sink.sink_write — the logging wrapper that records what the sink was offered is invisible
+   (theories/RunWRows.v, RunWRowsProofs.v) ---------- *)
+From MLA Require RunWRows RunWRowsProofs.
+
+Theorem C13_rows_write_all :
+  forall fuel (s : wr_st RunWRows.SinkStack) b,
+  write_all (PosW SinkW) fuel (RunWRowsProofs.erase_log s) b =
+  (RunWRowsProofs.erase_log (fst (write_all RunWRows.SinkStack fuel s b)), snd (write_all RunWRows.SinkStack fuel s b)).
+Proof. exact RunWRowsProofs.sinkstack_write_all. Qed.
+
+Theorem C13_rows_write :
+  forall (s : wr_st RunWRows.SinkStack) b,
+  pos_write SinkW (RunWRowsProofs.erase_log s) b =
+  (RunWRowsProofs.erase_log (fst (wr_write RunWRows.SinkStack s b)), snd (wr_write RunWRows.SinkStack s b)).
+Proof. exact RunWRowsProofs.sinkstack_write. Qed.
+
+Print Assumptions C13_rows_write_all.
+Print Assumptions C13_rows_write.
+
+(* the encryption layer writer (EncLayer.ew_write / ew_finalize) handing its bytes down with
+   inner.write_all through a destination that only throttles and interrupts — the composition job
+   c13-encsink evaluates (RunWRows.es_write / es_finalize = ew_* pushed through Sink.push_outs):
+   the call succeeds with the model's accepted count and the destination holds exactly ew_out *)
+Theorem C13_enc_writer_over_sink :
+  forall CH CB TG ks tagc fuel s k buf s' n,
+  EncLayer.ew_write CH CB ks tagc s buf = Ok (s', n) ->
+  sk_data k = EncLayer.ew_out s -> good_sched (sk_sched k) ->
+  (N.to_nat (len (EncLayer.ew_out s')) + length (sk_sched k) < fuel)%nat ->
+  exists k', RunWRows.es_write CH CB TG ks tagc fuel (s, k) buf = Ok (s', k', n) /\
+             sk_data k' = EncLayer.ew_out s' /\ good_sched (sk_sched k').
+Proof. exact RunWRowsProofs.es_write_sink_holds_ew_out. Qed.
+
+Theorem C13_enc_finalize_over_sink :
+  forall TG tagc fuel s k s',
+  EncLayer.ew_finalize tagc s = Ok s' ->
+  sk_data k = EncLayer.ew_out s -> good_sched (sk_sched k) ->
+  (N.to_nat (len (EncLayer.ew_out s')) + length (sk_sched k) < fuel)%nat ->
+  exists k', RunWRows.es_finalize TG tagc fuel (s, k) = Ok (s', k') /\
+             sk_data k' = EncLayer.ew_out s' /\ good_sched (sk_sched k').
+Proof. exact RunWRowsProofs.es_finalize_sink_holds_ew_out. Qed.
+
+(* non-vacuity (toy cipher, CHUNK 64, CIPHERBUF 24): a 30-byte write into a sink that accepts one
+   byte, interrupts, accepts three bytes, then everything: 24 bytes accepted, 24 bytes in the sink *)
+Example C13_enc_writer_over_sink_example :
+  exists s' k',
+    EncLayer.ew_write 64 24 toy_ks (toy_tag 16) EncLayer.ew_init (repeat 5 30) = Ok (s', 24) /\
+    RunWRows.es_write 64 24 16 toy_ks (toy_tag 16) 100 (EncLayer.ew_init, mkSink [] [Accept 1; Interrupt; Accept 3]) (repeat 5 30)
+      = Ok (s', k', 24) /\
+    sk_data k' = EncLayer.ew_out s' /\ len (sk_data k') = 24 /\ sk_sched k' = [].
+Proof. eexists. eexists. repeat split; vm_compute; reflexivity. Qed.
+
+Print Assumptions C13_enc_writer_over_sink.
+Print Assumptions C13_enc_finalize_over_sink.
+Print Assumptions C13_enc_writer_over_sink_example.
+(* ====================================================================================
+   The archive HEADER through sources that split transfers (work package hdrsrc).
+   HeaderStream.read_header_s = ArchiveHeader::from as the code's sequence of read_exact calls
+   (3, 4, then bincode's 1-byte and 8-byte primitives, the limit charged before each read).
+   ==================================================================================== *)
+From MLA Require Import Format Archive ArchiveProofs HeaderStream HeaderStreamProofs ArchiveSrc ArchiveSrcProofs.
+From MLA Require Import RoundTripBlocks RoundTripWriter Ecies.
+From Coq Require Import Permutation.
+
+(* any source refining a cursor over b, from position 0: the streamed read returns exactly what
+   Archive.read_header returns on the bytes, and leaves the source at the end of the header *)
+Theorem C13_header_any_source :
+  forall (S : Stream) (b : bytes) (R : st S -> N -> Prop), Refines S b R ->
+  forall (LIMIT : N) (s0 : st S), R s0 0 ->
+    exists s',
+      match read_header LIMIT b with
+      | Ok (h, rest) =>
+          read_header_s S LIMIT s0 = (s', Ok h) /\ R s' (len b - len rest) /\
+          rest = dropN (7 + config_size h) b /\ 7 + config_size h <= len b /\ config_size h <= LIMIT
+      | Err e =>
+          read_header_s S LIMIT s0 = (s', Err e) /\ exists p', R s' p' /\ p' <= 7 + LIMIT
+      | Crash _ => False
+      end.
+Proof. exact read_header_s_refines. Qed.
+
+(* hdr ++ rest: the layer theorems (any refining stream) compose after it *)
+Theorem C13_header_then_rest :
+  forall (LIMIT : N) (h : header) (rest : bytes) (S : Stream) (R : st S -> N -> Prop) (s0 : st S),
+  wf_enc_opt h -> config_size h <= LIMIT ->
+  Refines S (ser_header h ++ rest) R -> R s0 0 ->
+  exists s', read_header_s S LIMIT s0 = (s', Ok h) /\ R s' (len (ser_header h)).
+Proof. exact header_then_rest. Qed.
+
+(* C01_archive_roundtrip with the in-memory cursor replaced by ANY refining source, in any
+   state (ArchiveReader::from_config rewinds), header read from the source *)
+Theorem C13_archive_open_any_source :
+  forall (CHUNK TAG CIPHERBUF BLOCK LIMIT FNMAX TS TC TA TE : N) (H : bytes -> bytes)
+         (order : footer -> footer) (pubk : bytes -> bytes) (dh : bytes -> bytes -> bytes) (kdf : bytes -> bytes)
+         (wenc wdec wtag : bytes -> bytes -> bytes) (ksf : bytes -> bytes -> N -> N -> N)
+         (tagf : bytes -> bytes -> N -> bytes -> bytes) (dec : bytes -> bytes),
+  0 < CHUNK -> 0 < TAG -> 0 < CIPHERBUF -> 0 < BLOCK -> BLOCK < 2 ^ 32 ->
+  tags_distinct TS TC TA TE -> (forall x, len (H x) = 32) -> (forall f, Permutation (order f) f) ->
+  (forall k m, len m = 32 -> wdec k (wenc k m) = m) -> (forall e, len (pubk e) = 32) ->
+  (forall k m, len m = 32 -> len (wenc k m) = 32) -> (forall k c, len (wtag k c) = 16) ->
+  forall (cfg : wconfig) (cut_top cut_mid : list N) (ops : list wop) (sf : wstate) (rs : list (res N))
+         (privs : list bytes) (s : bytes),
+    let blocks := w_out sf in
+    let nb := nblocks BLOCK (len blocks) in
+    wrun FNMAX TS TC TA TE H order w_init (ops ++ [OFinalize]) = (sf, rs) ->
+    Forall (fun r => is_ok r = true) rs -> forallb op_utf8 ops = true ->
+    len blocks < 2 ^ 64 -> len (ser_footer_map (order (w_footer sf))) < 2 ^ 32 ->
+    (wc_compress cfg = true ->
+       (forall x, dec (wc_comp cfg x) = x) /\
+       (forall j, j < nb -> len (wc_comp cfg (block_at BLOCK blocks j)) < 2 ^ 32) /\
+       12 + 4 * nb <= LIMIT /\ 12 + 4 * nb < 2 ^ 32 /\ len blocks < 2 ^ 63) ->
+    (wc_encrypt cfg = true ->
+       len (wc_key cfg) = 32 /\ len (wc_nonce cfg) = 8 /\
+       (forall i c, len (tagf (wc_key cfg) (wc_nonce cfg) i c) = TAG) /\
+       nfull CHUNK (len (mid_of BLOCK cfg blocks)) + 2 < 2 ^ 32 /\
+       dh s (pubk (wc_eph cfg)) = dh (wc_eph cfg) (pubk s) /\
+       In (pubk s) (wc_recipients cfg) /\ In s privs) ->
+    config_size (to_persistent pubk dh kdf wenc wtag cfg) <= LIMIT ->
+    len (ser_header (to_persistent pubk dh kdf wenc wtag cfg) ++ wire_of CHUNK BLOCK ksf tagf cfg blocks) < 2 ^ 64 ->
+    exists a,
+      archive_write CHUNK CIPHERBUF BLOCK LIMIT FNMAX TS TC TA TE H order pubk dh kdf wenc wtag ksf tagf
+                    cfg cut_top cut_mid ops = Ok a /\
+      forall (S0 : Stream) (R0 : st S0 -> N -> Prop), Refines S0 a R0 ->
+      forall (s0 : st S0) (p0 : N), R0 s0 p0 ->
+      (TagCollision pubk dh kdf wenc wtag (wc_eph cfg) (wc_key cfg) (wc_recipients cfg) privs \/
+       exists p r,
+         archive_open_src CHUNK TAG BLOCK LIMIT dh kdf wdec wtag ksf tagf dec S0 s0 privs = Ok (existT _ p r) /\
+         op_enc p = wc_encrypt cfg /\ op_comp p = wc_compress cfg /\
+         reads_back FNMAX TS TC TA TE H ops (stack_src CHUNK TAG BLOCK ksf tagf dec S0 p) r).
+Proof. exact archive_open_any_source. Qed.
+
+(* a throttled source (any schedule) is such a source: Stream.throttled_refines (above) *)
+
+(* non-vacuity: an encrypted header with one wrapped key (105 bytes) followed by 2 bytes, one
+   byte per read: the header comes back, the source stands at 105; the same bytes cut at 60
+   give DeserializationError; through the theorem and by computation *)
+Definition hx_h : header := mkH 1 (Some (mkEH (repeat 7 32) [(repeat 1 32, repeat 2 16)] (repeat 3 8))).
+Definition hx_b : bytes := ser_header hx_h ++ [9; 9].
+Lemma hx_wf : wf_enc_opt hx_h.
+Proof.
+  unfold wf_enc_opt, hx_h, FormatProofs.wf_enc_header. cbn [h_enc eh_public eh_nonce eh_keys].
+  split; [reflexivity|]. split; [reflexivity|]. split; [vm_compute; reflexivity|].
+  constructor; [split; reflexivity | constructor].
+Qed.
+Example C13_header_example :
+  (exists s', read_header_s (Throttled hx_b) 1000 (0, [1]) = (s', Ok hx_h) /\ fst s' = 105) /\
+  read_header_s (Throttled hx_b) 1000 (0, [1]) = ((105, [1]), Ok hx_h) /\
+  read_header_s (Throttled (takeN 60 hx_b)) 1000 (0, [3; 1]) = ((60, [1]), Err EDeser) /\
+  read_header_s (Throttled hx_b) 90 (0, [2]) = ((97, [2]), Err EDeser).
+Proof.
+  split; [|vm_compute; repeat split; reflexivity].
+  destruct (C13_header_then_rest 1000 hx_h [9; 9] (Throttled hx_b) _ (0, [1])
+              hx_wf ltac:(vm_compute; discriminate)
+              (throttled_refines hx_b) ltac:(split; [reflexivity | vm_compute; discriminate]))
+    as (s' & Hr & Hs & _).
+  exists s'. split; [exact Hr | exact Hs].
+Qed.
+
+Print Assumptions C13_header_any_source.
+Print Assumptions C13_header_then_rest.
+Print Assumptions C13_archive_open_any_source.
+Print Assumptions hx_wf.
+Print Assumptions C13_header_example.
+
+(* Tie A: the order of the source reads of ArchiveHeader::from / writes of dump, from /repo *)
+From MLA Require SrcTieHeader.
+Theorem C13_tie_header_calls :
+  Src.HEADER_FROM_CALLS = SrcTieHeader.from_calls_model /\
+  Src.HEADER_FROM_SRC_USES = 3 /\
+  Src.HEADER_DUMP_CALLS = SrcTieHeader.dump_calls_model.
+Proof. exact SrcTieHeader.header_from_calls. Qed.
+Print Assumptions C13_tie_header_calls.
